@@ -224,15 +224,255 @@ Fixpoint conts_from (col : nat) (cs : list cell) : tails :=
       ++ conts_from (col + cell_cols c) t
   end.
 
+Fixpoint tails_eqb (a b : tails) : bool :=
+  match a, b with
+  | [], [] => true
+  | (k, (w, r)) :: a', (k', (w', r')) :: b' =>
+    Nat.eqb k k' && Nat.eqb w w' && Nat.eqb r r' && tails_eqb a' b'
+  | _, _ => false
+  end.
+
 (** well-formed: widths positive; what continues below a band is exactly what the next
-    band continues, at the same columns (the first band continues nothing) *)
+    band continues, at the same columns (the first band continues nothing, nothing
+    continues below the last) *)
 Fixpoint wf_bands (prev : tails) (l : layout) : bool :=
   match l with
-  | [] => true
+  | [] => tails_eqb prev []
   | (n, cs) :: rest =>
     forallb (fun c => 0 <? cell_cols c) cs
-    && (if list_eq_dec (prod_eq_dec Nat.eq_dec (prod_eq_dec Nat.eq_dec Nat.eq_dec)) (conts_from 1 cs) prev
-        then true else false)
+    && tails_eqb (conts_from 1 cs) prev
     && wf_bands (tails_from n 1 cs) rest
-  end
-with prod_eq_dec_dummy (u : unit) : unit := u.
+  end.
+Definition wf_layout (l : layout) : bool := wf_bands [] l.
+
+(** the positions of the tracked image views, read off the layout *)
+Fixpoint positions_cells (konsole : bool) (row col : nat) (cs : list cell) : list view :=
+  match cs with
+  | [] => []
+  | c :: t =>
+    (match c with
+     | CNew cv => if tracked konsole (cv_canv cv)
+                  then [mk_view (cv_canv cv) row col (cv_tl cv) (cv_tt cv) (cv_cols cv) (cv_rows cv)]
+                  else []
+     | CCont _ _ => []
+     end) ++ positions_cells konsole row (col + cell_cols c) t
+  end.
+Fixpoint positions_from (konsole : bool) (row : nat) (l : layout) : list view :=
+  match l with
+  | [] => []
+  | (n, cs) :: rest => positions_cells konsole row 1 cs ++ positions_from konsole (row + n) rest
+  end.
+Definition positions (konsole : bool) (l : layout) : list view := positions_from konsole 1 l.
+
+(** enough fuel for the walk: more than the number of cells of any band *)
+Definition layout_fuel (l : layout) : nat := S (fold_right (fun b m => Nat.max (length (snd b)) m) 0 l).
+
+(** ** 5. Placement-level terminal (specification side)
+
+    What a terminal implementing the kitty graphics protocol keeps on screen: a
+    placement stays where it was put until a delete command removes it ([d=A] all, [d=Z]
+    by z-index, [d=C] those intersecting the cursor cell); text, ECH, EL and SGR do not
+    touch placements; nothing scrolls (urwid addresses rows absolutely).  On Konsole an
+    iTerm2 inline image is such a placement too (z-index 0, removed by [d=A]); elsewhere
+    it is cell content, overwritten like text, and is not tracked here. *)
+Open Scope Z_scope.
+
+Record plc := mk_plc { p_r : Z; p_c : Z; p_w : Z; p_h : Z; p_z : Z }.
+
+Inductive stok :=
+| KCup (r c : Z)                  (* CSI r;c H (0-based here) *)
+| KRight (n : Z)                  (* n columns of text written, or CUF n *)
+| KLeft (n : Z)                   (* BS / CUB *)
+| KDown (n : Z) | KUp (n : Z)
+| KCr | KLf
+| KPlace (w h z : Z) (stay : bool)   (* kitty a=T,c=w,r=h,z=z,C=stay *)
+| KIterm (w h : Z) (dnmc : bool)     (* OSC 1337 File=...;width=w;height=h;doNotMoveCursor *)
+| KDel (d : kitty_del)
+| KSyncB | KSyncE
+| KOther.                         (* anything without effect on cursor or placements *)
+
+Record pterm := mk_pterm { t_r : Z; t_c : Z; t_plcs : list plc; t_sync : bool }.
+Definition pterm_init : pterm := mk_pterm 0 0 [] false.
+
+Definition covers (p : plc) (r c : Z) : bool :=
+  (p_r p <=? r) && (r <? p_r p + p_h p) && (p_c p <=? c) && (c <? p_c p + p_w p).
+
+Definition apply_del (d : kitty_del) (r c : Z) (l : list plc) : list plc :=
+  match d with
+  | DelAll => []
+  | DelZ z => filter (fun p => negb (p_z p =? z)) l
+  | DelCursor => filter (fun p => negb (covers p r c)) l
+  end.
+
+Definition set_cur (t : pterm) (r c : Z) : pterm := mk_pterm r c (t_plcs t) (t_sync t).
+Definition set_plcs (t : pterm) (l : list plc) : pterm := mk_pterm (t_r t) (t_c t) l (t_sync t).
+
+Definition pstep (konsole : bool) (t : pterm) (x : stok) : pterm :=
+  match x with
+  | KCup r c => set_cur t r c
+  | KRight n => set_cur t (t_r t) (t_c t + n)
+  | KLeft n => set_cur t (t_r t) (Z.max 0 (t_c t - n))
+  | KDown n => set_cur t (t_r t + n) (t_c t)
+  | KUp n => set_cur t (Z.max 0 (t_r t - n)) (t_c t)
+  | KCr => set_cur t (t_r t) 0
+  | KLf => set_cur t (t_r t + 1) (t_c t)
+  | KPlace w h z stay =>
+    let t' := set_plcs t (mk_plc (t_r t) (t_c t) w h z :: t_plcs t) in
+    if stay then t' else set_cur t' (t_r t + h - 1) (t_c t + w)
+  | KIterm w h dnmc =>
+    let t' := if konsole then set_plcs t (mk_plc (t_r t) (t_c t) w h 0 :: t_plcs t) else t in
+    if dnmc then t' else set_cur t' (t_r t + h - 1) (t_c t + w)
+  | KDel d => set_plcs t (apply_del d (t_r t) (t_c t) (t_plcs t))
+  | KSyncB => mk_pterm (t_r t) (t_c t) (t_plcs t) true
+  | KSyncE => mk_pterm (t_r t) (t_c t) (t_plcs t) false
+  | KOther => t
+  end.
+Definition pexec (konsole : bool) (t : pterm) (ts : list stok) : pterm := fold_left (pstep konsole) ts t.
+
+Definition plc_eqb (a b : plc) : bool :=
+  (p_r a =? p_r b) && (p_c a =? p_c b) && (p_w a =? p_w b) && (p_h a =? p_h b) && (p_z a =? p_z b).
+Definition plc_mem (p : plc) (l : list plc) : bool := existsb (plc_eqb p) l.
+(** placements are compared as sets (two equal placements are indistinguishable) *)
+Definition plcs_subset (a b : list plc) : bool := forallb (fun p => plc_mem p b) a.
+Definition plcs_same (a b : list plc) : bool := plcs_subset a b && plcs_subset b a.
+
+(** a stream is one synchronized update: begins with BEGIN, ends with END, none inside *)
+Definition is_sync (x : stok) : bool := match x with KSyncB | KSyncE => true | _ => false end.
+Definition bracketed (ts : list stok) : bool :=
+  match ts with
+  | KSyncB :: rest =>
+    match rev rest with
+    | KSyncE :: mid => negb (existsb is_sync mid)
+    | _ => false
+    end
+  | _ => false
+  end.
+
+Close Scope Z_scope.
+
+(** ** 3. The screen's bookkeeping *)
+
+Definition wkind_eqb (a b : wkind) : bool :=
+  match a, b with
+  | WKitty x, WKitty y => Z.eqb x y
+  | WIterm, WIterm | WText, WText => true
+  | _, _ => false
+  end.
+Definition ckind_eqb (a b : ckind) : bool :=
+  match a, b with
+  | CPlain, CPlain => true
+  | CImage w k, CImage w' k' => Nat.eqb w w' && wkind_eqb k k'
+  | _, _ => false
+  end.
+Definition canv_eqb (a b : canvinfo) : bool := Nat.eqb (ci_id a) (ci_id b) && ckind_eqb (ci_kind a) (ci_kind b).
+(** tuple equality of :673 (canvases compare by identity) *)
+Definition view_eqb (a b : view) : bool :=
+  canv_eqb (v_canv a) (v_canv b) && Nat.eqb (v_row a) (v_row b) && Nat.eqb (v_col a) (v_col b)
+  && Nat.eqb (v_tl a) (v_tl b) && Nat.eqb (v_tt a) (v_tt b)
+  && Nat.eqb (v_cols a) (v_cols b) && Nat.eqb (v_rows a) (v_rows b).
+Definition view_mem (v : view) (l : list view) : bool := existsb (view_eqb v) l.
+
+Definition v_wid (v : view) : nat := match ci_kind (v_canv v) with CImage w _ => w | CPlain => 0 end.
+Definition v_kind (v : view) : wkind := match ci_kind (v_canv v) with CImage _ k => k | CPlain => WText end.
+Definition is_kitty (k : wkind) : bool := match k with WKitty _ => true | _ => false end.
+Definition kind_z (k : wkind) : Z := match k with WKitty z => z | _ => 0%Z end.
+
+Record scr := mk_scr {
+  s_prev : list view;            (* _ti_image_cviews *)
+  s_cdis : nat;                  (* UrwidImageCanvas._ti_disguise_state (class attribute) *)
+  s_wdis : list (nat * nat);     (* widget -> UrwidImage._ti_disguise_state, absent = 0 *)
+  s_canv : option nat            (* identity of _ti_screen_canv *)
+}.
+Definition scr_init : scr := mk_scr [] 0 [] None.
+
+Fixpoint wdis_get (w : nat) (l : list (nat * nat)) : nat :=
+  match l with
+  | [] => 0
+  | (w', n) :: t => if Nat.eqb w' w then n else wdis_get w t
+  end.
+Definition wdis_bump (w : nat) (l : list (nat * nat)) : list (nat * nat) :=
+  (w, (wdis_get w l + 1) mod 3) :: filter (fun e => negb (Nat.eqb (fst e) w)) l.   (* :211 *)
+
+(** the number of ["\b "] appended to every line of an image canvas (:402-410) *)
+Definition dsum (s : scr) (w : nat) : nat := s_cdis s + wdis_get w (s_wdis s).
+
+(** clear_images() without widgets (:535-536, :564-569) *)
+Definition clear_images_all (ksup : bool) (s : scr) : list stok * scr :=
+  if ksup then ([KDel DelAll], mk_scr (s_prev s) ((s_cdis s + 1) mod 3) (s_wdis s) (s_canv s))
+  else ([], s).
+
+(** clear_images(widgets..., now=False) (:535-563): one disguise bump and one delete per
+    ARGUMENT that is a kitty widget *)
+Definition clear_images_widgets (ksup : bool) (ws : list (nat * wkind)) (s : scr) : list stok * scr :=
+  if ksup then
+    let ks := filter (fun w => is_kitty (snd w)) ws in
+    (map (fun w => KDel (DelZ (kind_z (snd w)))) ks,
+     mk_scr (s_prev s) (s_cdis s) (fold_left (fun l w => wdis_bump (fst w) l) ks (s_wdis s)) (s_canv s))
+  else ([], s).
+
+Fixpoint dedup_w (ws : list (nat * wkind)) : list (nat * wkind) :=
+  match ws with
+  | [] => []
+  | w :: t => if existsb (fun x => Nat.eqb (fst x) (fst w)) t then dedup_w t else w :: dedup_w t
+  end.
+
+(** the part of _ti_clear_images after the walk (:672-686).
+    FIX (pending_fixes/C18_kitty_widget_listed_per_view.diff): a kitty widget is passed ONCE
+    to clear_images() however many of its views disappeared (the code before the fix passed
+    it once per view, so that three vanished views left its disguise unchanged and its
+    surviving lines were deleted but not re-sent).
+    The iteration order of the set difference is unspecified: the deletes are a set. *)
+Definition update_views (ksup : bool) (new : list view) (s : scr) : list stok * scr :=
+  let diff := filter (fun v => negb (view_mem v new)) (s_prev s) in
+  let '(out, s1) :=
+    if existsb (fun v => negb (is_kitty (v_kind v))) diff then clear_images_all ksup s     (* :677-681 *)
+    else match diff with
+         | [] => ([], s)
+         | _ => clear_images_widgets ksup (dedup_w (map (fun v => (v_wid v, v_kind v)) diff)) s   (* :683-684 *)
+         end in
+  (out, mk_scr new (s_cdis s1) (s_wdis s1) (s_canv s1)).                                   (* :686 *)
+
+(** a canvas handed to draw_screen: a CompositeCanvas with its shards, or any other canvas *)
+Inductive canvas := Composite (id : nat) (shards : list shard) | Single (c : canvinfo) (cols rows : nat).
+Definition canvas_id (c : canvas) : nat := match c with Composite i _ => i | Single ci _ _ => ci_id ci end.
+(** FIX (pending_fixes/C18_non_composite_canvas.diff): a canvas that is not a
+    CompositeCanvas is wrapped into one — [CompositeCanvas(canv).shards] is
+    [[(rows, [(0, 0, cols, rows, None, canv)])]] (urwid/canvas.py:664) — instead of the
+    special branch :626-630, which raised AttributeError (frozenset.clear) when images were
+    on screen and forgot an image canvas drawn as the top-most widget. *)
+Definition canvas_shards (c : canvas) : list shard :=
+  match c with
+  | Composite _ sh => sh
+  | Single ci cols rows => [(rows, [mk_cview 0 0 cols rows ci])]
+  end.
+
+(** _ti_clear_images (:615-686); [None] = the walk ran out of fuel *)
+Definition ti_clear_images (fuel : nat) (ksup ikon konsole : bool) (c : canvas) (s : scr)
+  : option (list stok * scr) :=
+  if negb (ksup || ikon) then Some ([], s)                                                 (* :616-622 *)
+  else match walk fuel konsole (canvas_shards c) with
+       | None => None
+       | Some new => Some (update_views ksup new s)
+       end.
+
+(** ** 4. Streams *)
+
+(** draw_screen (:574-589): [inner] is what the base class' draw_screen wrote before it
+    returned or raised *)
+Definition draw_screen (fuel : nat) (ksup ikon konsole : bool) (c : canvas) (inner : list stok) (s : scr)
+  : option (list stok * scr) :=
+  if match s_canv s with Some i => Nat.eqb i (canvas_id c) | None => false end             (* :583 *)
+  then Some ([KSyncB] ++ inner ++ [KSyncE], s)
+  else
+    let s0 := mk_scr (s_prev s) (s_cdis s) (s_wdis s) (Some (canvas_id c)) in              (* :584 *)
+    match ti_clear_images fuel ksup ikon konsole c s0 with                                 (* :585 *)
+    | None => None
+    | Some (dels, s1) => Some ([KSyncB] ++ dels ++ inner ++ [KSyncE], s1)                  (* :581,586-588 *)
+    end.
+
+(** clear (:512-514), _start (:606-609), _stop (:611-613); [inner] = the base class' output *)
+Definition clear_stream (ksup : bool) (s : scr) : list stok * scr := clear_images_all ksup s.
+Definition start_stream (ksup : bool) (inner : list stok) (s : scr) : list stok * scr :=
+  let '(o, s') := clear_images_all ksup s in (inner ++ o, s').
+Definition stop_stream (ksup : bool) (inner : list stok) (s : scr) : list stok * scr :=
+  let '(o, s') := clear_images_all ksup s in (o ++ inner, s').
